@@ -11,7 +11,9 @@ import (
 	"strings"
 )
 
-func init() { items = append(items, c02EmitC02Qualifies, c02EmitC13Timeouts, c02EmitC02GateShape) }
+func init() {
+	items = append(items, c02EmitC02Qualifies, c02EmitC13Timeouts, c02EmitC02GateShape, c02EmitC02PolicyShape)
+}
 
 // c02EmitC02Qualifies translates the body of SubjectQualifiesForCert: a single return of a
 // conjunction; every conjunct must have one of the shapes below (fails closed otherwise).
@@ -323,4 +325,90 @@ func c02EmitC02GateShape(t *tr) {
 		return
 	}
 	t.p("Definition hs_no_obtain_after_maintenance_error : bool := %v. (* !errors.Is(err, errMaintainingLoadedCert) guards the obtain call; loadCertFromStorage wraps the sentinel *)\n", guarded == 1 && wraps)
+}
+
+// c02EmitC02PolicyShape reads the statements the policy model of Handshake/Template.v rests on:
+//   - newWithCache: `if cfg.OnDemand == nil { cfg.OnDemand = Default.OnDemand }` — the pointer is
+//     aliased, not copied;
+//   - manageAll: inside `if cfg.OnDemand != nil` the name is recorded with
+//     `cfg.OnDemand.hostAllowlist[domainName] = struct{}{}`;
+//   - checkIfCertShouldBeObtained: inside `if cfg.OnDemand != nil` the first statement is the
+//     DecisionFunc branch, which ends in `return nil`, and the allowlist test
+//     `len(cfg.OnDemand.hostAllowlist) > 0` comes after it.
+func c02EmitC02PolicyShape(t *tr) {
+	get := func(name string) *ast.FuncDecl {
+		fd := t.funcs[name]
+		if fd == nil || fd.Body == nil {
+			t.errf("missing %s", name)
+			return nil
+		}
+		return fd
+	}
+	nw, ma, ck := get("newWithCache"), get("Config.manageAll"), get("Config.checkIfCertShouldBeObtained")
+	if nw == nil || ma == nil || ck == nil {
+		return
+	}
+	isSel := func(e ast.Expr, s string) bool { return exprStr(e) == s }
+	aliased := false
+	ast.Inspect(nw.Body, func(n ast.Node) bool {
+		is, ok := n.(*ast.IfStmt)
+		if !ok {
+			return true
+		}
+		c, ok := is.Cond.(*ast.BinaryExpr)
+		if !ok || c.Op != token.EQL || !isSel(c.X, "cfg.OnDemand") || !isSel(c.Y, "nil") {
+			return true
+		}
+		if len(is.Body.List) == 1 {
+			if as, ok := is.Body.List[0].(*ast.AssignStmt); ok && as.Tok == token.ASSIGN && len(as.Lhs) == 1 && len(as.Rhs) == 1 &&
+				isSel(as.Lhs[0], "cfg.OnDemand") && isSel(as.Rhs[0], "Default.OnDemand") {
+				aliased = true
+			}
+		}
+		return true
+	})
+	recorded := false
+	ast.Inspect(ma.Body, func(n ast.Node) bool {
+		as, ok := n.(*ast.AssignStmt)
+		if !ok || len(as.Lhs) != 1 {
+			return true
+		}
+		if ix, ok := as.Lhs[0].(*ast.IndexExpr); ok && isSel(ix.X, "cfg.OnDemand.hostAllowlist") {
+			recorded = true
+		}
+		return true
+	})
+	decisionFirst := false
+	ast.Inspect(ck.Body, func(n ast.Node) bool {
+		is, ok := n.(*ast.IfStmt)
+		if !ok {
+			return true
+		}
+		c, ok := is.Cond.(*ast.BinaryExpr)
+		if !ok || c.Op != token.NEQ || !isSel(c.X, "cfg.OnDemand") || !isSel(c.Y, "nil") || len(is.Body.List) != 2 {
+			return true
+		}
+		d, ok1 := is.Body.List[0].(*ast.IfStmt)
+		a, ok2 := is.Body.List[1].(*ast.IfStmt)
+		if !ok1 || !ok2 {
+			return true
+		}
+		dc, ok1 := d.Cond.(*ast.BinaryExpr)
+		ac, ok2 := a.Cond.(*ast.BinaryExpr)
+		if !ok1 || !ok2 || dc.Op != token.NEQ || !isSel(dc.X, "cfg.OnDemand.DecisionFunc") || ac.Op != token.GTR {
+			return true
+		}
+		if lc, ok := ac.X.(*ast.CallExpr); !ok || exprStr(lc.Fun) != "len" || len(lc.Args) != 1 || !isSel(lc.Args[0], "cfg.OnDemand.hostAllowlist") {
+			return true
+		}
+		if len(d.Body.List) > 0 {
+			if rs, ok := d.Body.List[len(d.Body.List)-1].(*ast.ReturnStmt); ok && len(rs.Results) == 1 && isSel(rs.Results[0], "nil") {
+				decisionFirst = true
+			}
+		}
+		return true
+	})
+	t.p("Definition hs_template_ondemand_aliased : bool := %v. (* newWithCache: if cfg.OnDemand == nil { cfg.OnDemand = Default.OnDemand } *)\n", aliased)
+	t.p("Definition hs_manage_records_allowlist : bool := %v. (* manageAll: cfg.OnDemand.hostAllowlist[name] = struct{}{} *)\n", recorded)
+	t.p("Definition hs_decision_before_allowlist : bool := %v. (* checkIfCertShouldBeObtained: DecisionFunc branch (return nil) before the allowlist test *)\n", decisionFirst)
 }
